@@ -763,7 +763,7 @@ impl TypedScenario for C12Raw {
     }
     fn budget(&self, tier: Tier) -> usize {
         match tier {
-            Tier::Quick => sweep_len() + 2000,
+            Tier::Quick => sweep_len() + 12_000,
             Tier::Thorough => sweep_len() + 1_500_000,
         }
     }
